@@ -29,5 +29,6 @@ void *w_creader_new(const char *p, size_t n)
 void w_creader_del(void *r) { delete (struct creader *)r; }
 long w_creader_readline(void *r, const char **token) { return (long)creader_readline((struct creader *)r, token); }
 int w_creader_skip(void *r, const char *symbols) { return creader_skip((struct creader *)r, symbols); }
+int w_creader_skipws(void *r) { return creader_skipws((struct creader *)r); }
 int w_creader_end(void *r) { return creader_end((struct creader *)r); }
 long w_creader_curpos(void *r) { return (long)creader_curpos((struct creader *)r); }
